@@ -103,7 +103,7 @@ def write_cfg(path, spec="Spec", constants=None, invariants=(), properties=(), e
         for k, v in constants.items():
             if isinstance(v, bool):
                 v = "TRUE" if v else "FALSE"
-            elif isinstance(v, str) and not v.startswith("<-"):
+            elif isinstance(v, str) and not v.startswith("<-") and not v.startswith("{"):
                 v = '"%s"' % v
             if isinstance(v, str) and v.startswith("<-"):
                 lines.append("  %s %s" % (k, v))
